@@ -264,7 +264,8 @@ def lru_rule(ctx: Ctx) -> None:
         import re as _re2
         base = got[0]
         fills = [(rfl.canon(e_.expr), rfl.canon_cond(e_.cond)) for e_ in rfl.effects if e_.kind == "store"]
-        sized = base in ("Mult(P0.associativity, [0])", "Mult(len(P0.lru), [0])", "Mult(P0.associativity, [None])", "Mult(len(P0.lru), [None])")
+        sized = base in ("Mult(P0.associativity, [0])", "Mult(len(P0.lru), [0])", "Mult(P0.associativity, [None])", "Mult(len(P0.lru), [None])",
+                         "Mult([0], P0.associativity)", "Mult([0], len(P0.lru))", "Mult([None], P0.associativity)", "Mult([None], len(P0.lru))")
         E_ = "ELEM1.0(enumerate(P0.lru))"
         ok = sized and len(fills) == 1 and _re2.sub(r"@\d+", "", fills[0][0]) == f"{base}[{E_}[1]] := {E_}[0]" and fills[0][1] == "LOOP1" \
             and not [e_ for e_ in rfl.effects if e_.kind not in ("store",)]
